@@ -19,6 +19,7 @@ CONSTANTS
   EmitDyn = TRUE
   MaxHist = 0
   MaxReorders = 0
+  NewKs <- EmptySet
   NameOrder <- NameOrderA
   BuildCfgs <- BuildCfgsA
   IntegrCfgs <- IntegrCfgsA
